@@ -175,6 +175,44 @@ def check_shape(shape, only=None):
         if any(abs(a[0] - b[0]) > EPS or abs(a[1] - b[1]) > EPS for a, b in zip(got, want)):
             bad("repeat-layout-differs", f"history {[x[0] + str(x[1:]) for x in h]}: {got} vs fresh {want}")
             break
+    # node ids are payload (clones share them): a tree whose nodes all carry the same id lays out like any other
+    try:
+        twin = S.build(shape, BinaryTreeNode)
+        for k, nd in enumerate(S.preorder(twin)):
+            nd.id = "same" if k % 2 else "other"
+        TreeLayout().layout(twin)
+        if any(abs(a[0] - b[0]) > EPS or abs(a[1] - b[1]) > EPS for a, b in zip(coords(twin), want)):
+            bad("layout-depends-on-node-ids", f"{coords(twin)} vs {want}")
+    except Exception as e:  # noqa
+        bad("layout-raises:" + type(e).__name__, f"duplicate ids: {e!r}"[:120])
+    # shape changes between layouts: lay out (a subtree), change the shape in place below it, lay out an ancestor
+    n_nodes = S.size(shape)
+    if 3 <= n_nodes <= 9:
+        for start_at, mutate_at in ((1, 1), (0, 1), (1, 2), (0, 0)):
+            root = S.build(shape, BinaryTreeNode)
+            nodes = S.preorder(root)
+            if max(start_at, mutate_at) >= len(nodes):
+                continue
+            try:
+                TreeLayout().layout(nodes[start_at])
+                m_ = nodes[mutate_at]
+                a_, b_ = m_.left, m_.right
+                m_.set_left(b_)          # mirror the children of one node through the public setters
+                m_.set_right(a_)
+                TreeLayout().layout(root)
+
+                def shape_of(nd):
+                    return None if nd is None else (shape_of(nd.left), shape_of(nd.right))
+
+                fresh = fresh_coords(shape_of(root), 1.0, 1.0)
+                got = coords(root)
+                if any(abs(x[0] - y[0]) > EPS or abs(x[1] - y[1]) > EPS for x, y in zip(got, fresh)):
+                    bad("layout-after-shape-change-differs", f"layout(node {start_at}), children of node {mutate_at} exchanged, layout(root): "
+                        f"{got} vs a fresh tree of the new shape {fresh}")
+                    break
+            except Exception as e:  # noqa
+                bad("layout-raises-on-repeat:" + type(e).__name__, f"shape-change history: {e!r}"[:140])
+                break
     # one long-lived TreeLayout object: every call must report the true bounding box of what it just laid out
     shared = TreeLayout()
     big = S.build(((((None, None), (None, None)), None), ((None, None), ((None, None), (None, None)))), BinaryTreeNode)
